@@ -6,7 +6,7 @@ registrations/removals as operations.
 """
 from mc.engine import hbfs
 from mc.engine.report import Violation
-from mc.engine.seams import Canon, public_snapshot
+from mc.engine.seams import Canon, public_snapshot, new_model
 
 import logging
 
@@ -59,7 +59,7 @@ class Harness:
             lg.setLevel(logging.ERROR)
             w.model = m = Core.Model(seed=1, logger=lg)
         else:
-            w.model = m = Core.Model(seed=1)
+            w.model = m = new_model(seed=1)
         w.log = log = []
         tc = self.tc
 
@@ -283,9 +283,16 @@ def explore_cfg(ctx, cfg):
         ctx.cap(f'{name}: fixpoint not reached')
 
 
+# the cheap legs run once more under the runner's ambient configurations (python -O, other logger levels)
+AMBIENT_LEGS = True
+
+
 def run(ctx):
     from mc.engine import par
-    par.pmap(ctx, explore_cfg, list(configs(ctx.tier)), procs=ctx.procs)
+    cfgs = list(configs(ctx.tier))
+    if ctx.small:
+        cfgs = cfgs[::5]
+    par.pmap(ctx, explore_cfg, cfgs, procs=ctx.procs)
 
 
 def replay(case):
